@@ -55,6 +55,10 @@ pub trait Family: Sync {
     fn classify(&self, _inp: &InputSpec, _bs: usize, _variant: usize, _ch: &Chunking, _reference: &Outcome, _got: &Outcome, diff: &Diff) -> String {
         diff.kind.clone()
     }
+    /// how many of the presentation variants are run on corrupted inputs (default: all)
+    fn variants_for_corrupted(&self, _quick: bool) -> usize {
+        usize::MAX
+    }
     /// run the single-chunk references of the corrupted inputs in a watchdog subprocess first and exclude
     /// inputs on which the library never returns (a hang is the same for every chunking: not a C14 matter)
     fn screen_for_hangs(&self) -> bool {
@@ -158,12 +162,12 @@ fn replay(ctx: &Ctx, case: &Value) -> ! {
 /// worker mode: `--screen=<family> --from=<i> --to=<j>`: runs the references of inputs i..j, announcing each
 fn screen_worker(ctx: &Ctx, fam: &str) -> ! {
     let arg = |k: &str| ctx.extra_args.iter().find_map(|a| a.strip_prefix(k)).and_then(|v| v.parse::<usize>().ok()).unwrap_or(0);
-    let (from, to) = (arg("--from="), arg("--to="));
+    let (from, to, step) = (arg("--from="), arg("--to="), arg("--step=").max(1));
     let fams = families(ctx);
     let f = fams.iter().find(|f| f.name() == fam).expect("family");
     let inputs = f.inputs(ctx.quick());
     use std::io::Write;
-    for i in from..to.min(inputs.len()) {
+    for i in (from..to.min(inputs.len())).step_by(step) {
         println!("@ {i}");
         std::io::stdout().flush().ok();
         for &bs in &f.batch_sizes() {
@@ -184,7 +188,6 @@ fn screen_hangs(ctx: &Ctx, f: &dyn Family, inputs: &[InputSpec]) -> Vec<bool> {
     }
     let (lo, hi) = (idx[0], idx[idx.len() - 1] + 1);
     let workers = ctx.threads.clamp(1, 16);
-    let per = (hi - lo).div_ceil(workers);
     let found = std::sync::Mutex::new(vec![]);
     std::thread::scope(|s| {
         for w in 0..workers {
@@ -192,16 +195,19 @@ fn screen_hangs(ctx: &Ctx, f: &dyn Family, inputs: &[InputSpec]) -> Vec<bool> {
             let tier = if ctx.quick() { "quick" } else { "thorough" };
             let name = f.name();
             s.spawn(move || {
-                let mut from = lo + w * per;
-                let to = (from + per).min(hi);
+                // worker w takes indices lo+w, lo+w+workers, ... (neighbouring corruptions tend to hang together)
+                let mut from = lo + w;
+                let to = hi;
+                let mut slow_starts = 0;
                 while from < to {
-                    let args: Vec<String> = vec!["C14".into(), "--tier".into(), tier.into(), format!("--screen={name}"), format!("--from={from}"), format!("--to={to}")];
-                    match vcore::sub::run_worker(exe, &args, None, std::time::Duration::from_secs(4), |_| {}) {
+                    let args: Vec<String> = vec!["C14".into(), "--tier".into(), tier.into(), format!("--screen={name}"), format!("--from={from}"), format!("--to={to}"), format!("--step={workers}")];
+                    match vcore::sub::run_worker(exe, &args, None, std::time::Duration::from_secs(3), |_| {}) {
                         vcore::sub::WorkerEnd::Completed => break,
                         vcore::sub::WorkerEnd::Hung { in_flight: Some(i) } => {
                             found.lock().unwrap().push(i as usize);
-                            from = i as usize + 1;
+                            from = i as usize + workers;
                         }
+                        vcore::sub::WorkerEnd::Hung { in_flight: None } if slow_starts < 5 => slow_starts += 1, // machine overloaded: worker did not even start in time
                         other => {
                             let d = match other {
                                 vcore::sub::WorkerEnd::Died { desc, in_flight } => format!("died {desc} in flight {in_flight:?}"),
@@ -252,9 +258,8 @@ pub fn run(ctx: &Ctx) -> ! {
     st.extra.insert("excluded_inputs_library_hangs".into(), json!(excluded));
 
     // ---- jobs: (family, input, batch size, variant) with the single-chunk reference and the chunking space
-    let mut jobs: Vec<Job> = vec![];
-    let mut first = 0u64;
     let mut bounds_doc = serde_json::Map::new();
+    let mut pairs: Vec<(usize, usize)> = vec![];
     for (fi, f) in fams.iter().enumerate() {
         let b_valid = f.bounds(quick);
         let b_corrupt = f.corrupt_bounds(quick);
@@ -265,35 +270,68 @@ pub fn run(ctx: &Ctx) -> ! {
                    "batch_sizes": f.batch_sizes(), "variants": f.variants(),
                    "bounds": format!("{b_valid:?}"), "bounds_for_corrupted": format!("{b_corrupt:?}")}),
         );
-        for (ii, inp) in all_inputs[fi].iter().enumerate() {
-            let bounds = if inp.corrupt.is_some() { &b_corrupt } else { &b_valid };
-            for &bs in &f.batch_sizes() {
-                // one-shot pull reader vs single-chunk decoder run
-                let reference0 = run_caught(f.as_ref(), inp, bs, 0, &Chunking::whole());
-                if let Some(one) = catch(|| f.oneshot(inp, bs)).unwrap_or_else(|p| Some(Outcome { class: format!("panic:{}", p.fingerprint()), ..Default::default() })) {
-                    st.add("vs-one-shot-reader", 1, 1);
-                    if let Some(d) = compare(&one, &reference0, None) {
-                        st.violate(first, format!("c14:{}:vs-one-shot-reader:{}", f.name(), d.kind), format!("single-chunk decoder run differs from the one-shot reader on input {:?}: {}", inp.base_name, d.detail), || {
-                            case_json(f.as_ref(), inp, bs, 0, &Chunking::whole())
-                        });
+        for ii in 0..all_inputs[fi].len() {
+            pairs.push((fi, ii));
+        }
+    }
+    // references are computed in parallel (pure functions of the pair), then laid out in pair order
+    let protos: Vec<std::sync::Mutex<Option<(Vec<Job>, Stats)>>> = pairs.iter().map(|_| std::sync::Mutex::new(None)).collect();
+    let next = std::sync::atomic::AtomicUsize::new(0);
+    std::thread::scope(|s| {
+        for _ in 0..ctx.threads.max(1) {
+            s.spawn(|| loop {
+                let k = next.fetch_add(1, std::sync::atomic::Ordering::Relaxed);
+                if k >= pairs.len() {
+                    break;
+                }
+                let (fi, ii) = pairs[k];
+                let f = fams[fi].as_ref();
+                let inp = &all_inputs[fi][ii];
+                let bounds = if inp.corrupt.is_some() { f.corrupt_bounds(quick) } else { f.bounds(quick) };
+                let mut st = Stats::new();
+                let mut js = vec![];
+                for &bs in &f.batch_sizes() {
+                    // one-shot pull reader vs single-chunk decoder run
+                    let reference0 = run_caught(f, inp, bs, 0, &Chunking::whole());
+                    if let Some(one) = catch(|| f.oneshot(inp, bs)).unwrap_or_else(|p| Some(Outcome { class: format!("panic:{}", p.fingerprint()), ..Default::default() })) {
+                        st.add("vs-one-shot-reader", 1, 1);
+                        if let Some(d) = compare(&one, &reference0, None) {
+                            st.violate(k as u64, format!("c14:{}:vs-one-shot-reader:{}", f.name(), d.kind), format!("single-chunk decoder run differs from the one-shot reader on input {:?}: {}", inp.base_name, d.detail), || {
+                                case_json(f, inp, bs, 0, &Chunking::whole())
+                            });
+                        }
+                    }
+                    // byte-wise run gives the interesting positions
+                    let n = inp.bytes.len();
+                    let bytewise = run_caught(f, inp, bs, 0, &Chunking { cuts: (1..n as u32).collect(), flush: Flush::End });
+                    let interesting = f.interesting(inp, &bytewise);
+                    let nv = if inp.corrupt.is_some() { f.variants().len().min(f.variants_for_corrupted(quick)) } else { f.variants().len() };
+                    for variant in 0..nv {
+                        let reference = if variant == 0 { reference0.clone() } else { run_caught(f, inp, bs, variant, &Chunking::whole()) };
+                        let space = ChunkSpace::new(n, &interesting, &bounds);
+                        js.push(Job { fam: fi, input: ii, bs, variant, reference, space, first: 0 });
                     }
                 }
-                // byte-wise run gives the interesting positions
-                let n = inp.bytes.len();
-                let bytewise = run_caught(f.as_ref(), inp, bs, 0, &Chunking { cuts: (1..n as u32).collect(), flush: Flush::End });
-                let interesting = f.interesting(inp, &bytewise);
-                for variant in 0..f.variants().len() {
-                    let reference = if variant == 0 { reference0.clone() } else { run_caught(f.as_ref(), inp, bs, variant, &Chunking::whole()) };
-                    let space = ChunkSpace::new(n, &interesting, bounds);
-                    let total = space.total;
-                    jobs.push(Job { fam: fi, input: ii, bs, variant, reference, space, first });
-                    first += total;
-                }
-            }
+                *protos[k].lock().unwrap() = Some((js, st));
+            });
+        }
+    });
+    let mut jobs: Vec<Job> = vec![];
+    let mut first = 0u64;
+    for p in protos {
+        let (js, pst) = p.into_inner().unwrap().expect("job prepared");
+        st.merge(pst);
+        for mut j in js {
+            j.first = first;
+            first += j.space.total;
+            jobs.push(j);
         }
     }
     let total = first;
     let firsts: Vec<u64> = jobs.iter().map(|j| j.first).collect();
+    if ctx.has_flag("--timing") {
+        eprintln!("timing: {} jobs, {} chunkings prepared after {:.1}s", jobs.len(), total, ctx.start.elapsed().as_secs_f64());
+    }
     st.extra.insert("chunking_jobs".into(), json!(jobs.len()));
     st.extra.insert("families".into(), Value::Object(bounds_doc));
 
@@ -320,7 +358,7 @@ pub fn run(ctx: &Ctx) -> ! {
                 std::process::exit(2);
             }
             let cls = f.classify(inp, j.bs, j.variant, &ch, &j.reference, &got, &d);
-            st.violate(idx, format!("c14:{}:{}", f.name(), cls), format!("input {:?} corrupt={:?} bs={} variant={} chunks={:?}: {}", inp.base_name, inp.corrupt, j.bs, f.variants()[j.variant], ch.chunks(inp.bytes.len()), d.detail), || {
+            st.violate((1u64 << 32) + idx, format!("c14:{}:{}", f.name(), cls), format!("input {:?} corrupt={:?} bs={} variant={} chunks={:?}: {}", inp.base_name, inp.corrupt, j.bs, f.variants()[j.variant], ch.chunks(inp.bytes.len()), d.detail), || {
                 case_json(f, inp, j.bs, j.variant, &ch)
             });
         }
@@ -332,10 +370,10 @@ pub fn run(ctx: &Ctx) -> ! {
 
     // ---- range / message level environments
     if !ctx.extra_args.iter().any(|a| a.starts_with("--family=")) || ctx.has_flag("--family=parquet-metadata-push-decoder") {
-        pqmeta::explore(ctx, &mut st, &states, total);
+        pqmeta::explore(ctx, &mut st, &states, (1u64 << 40) + total);
     }
     if !ctx.extra_args.iter().any(|a| a.starts_with("--family=")) || ctx.has_flag("--family=flight-data-decoder") {
-        flight::explore(ctx, &mut st, &states, total + (1 << 40));
+        flight::explore(ctx, &mut st, &states, (1u64 << 41) + total);
     }
 
     st.states = states.len();
